@@ -468,10 +468,11 @@ class Run:
             self.undecided.append({"obligations": had or [prefix], "why": "function outside the verified subset: " + str(f.get("why"))})
 
     def write_replay(self, rep):
-        os.makedirs(os.path.join(VERIF, "replays"), exist_ok=True)
+        out = os.environ.get("PYVC_OUT_DIR", VERIF)      # scratch runs (mutation sweep) keep their files out of /verif
+        os.makedirs(os.path.join(out, "replays"), exist_ok=True)
         h = hashlib.sha256(json.dumps(rep, sort_keys=True, default=str).encode()).hexdigest()[:10]
         path = os.path.join("replays", f"{self.pid}-{h}.json")
-        with open(os.path.join(VERIF, path), "w") as f:
+        with open(os.path.join(out, path), "w") as f:
             json.dump(rep, f, indent=1, default=str)
         return path
 
@@ -519,8 +520,9 @@ class Run:
         ev = {"property_id": self.pid, "tier": self.tier, "seed": self.seed, "level": level, "coverage": cov,
               "assumptions": [f"{a}: {ASSUMPTIONS.get(a, self.prop.get('assumption_text', {}).get(a, ''))}" for a in assumptions],
               "wall_s": round(time.time() - self.t0, 2), "violations": len(self.violations), "status": status}
-        os.makedirs(os.path.join(VERIF, "evidence"), exist_ok=True)
-        with open(os.path.join(VERIF, "evidence", f"{self.pid}.json"), "w") as f:
+        out = os.environ.get("PYVC_OUT_DIR", VERIF)
+        os.makedirs(os.path.join(out, "evidence"), exist_ok=True)
+        with open(os.path.join(out, "evidence", f"{self.pid}.json"), "w") as f:
             json.dump(ev, f, indent=1, default=str)
         return ev
 
